@@ -593,6 +593,38 @@ async fn faulty_peer(addr: std::net::SocketAddr, tls: bool, dict: Arc<Dictionary
         "stall-setup" => { if let Ok(s) = raw().await { tokio::time::sleep(hold).await; drop(s); } }
         // speaks something that is not the expected protocol at connection setup
         "garbage-setup" => { if let Ok(mut s) = raw().await { let _ = s.write_all(b"GET / HTTP/1.0\r\n\r\n").await; tokio::time::sleep(hold).await; } }
+        // resets its connection while its request is still with the (slow) handler and is back at once FROM THE SAME ADDRESS AND
+        // PORT (a restarted peer with a fixed source port, as Diameter peers often have): a new connection like any other
+        "reset-same-port" => {
+            let mk = |port: u16| -> std::io::Result<tokio::net::TcpSocket> {
+                let s = tokio::net::TcpSocket::new_v4()?;
+                s.set_reuseaddr(true)?;
+                s.bind(std::net::SocketAddr::from(([127, 0, 0, 1], port)))?;
+                Ok(s)
+            };
+            let first = match mk(0) { Ok(s) => s, Err(_) => return };
+            let port = match first.local_addr() { Ok(a) => a.port(), Err(_) => return };
+            if let Ok(mut c) = first.connect(addr).await {
+                if !tls {
+                    let _ = c.write_all(&request(&dict, "SLOW-sameport", 5)).await;
+                }
+                tokio::time::sleep(Duration::from_millis(60)).await;
+                let _ = c.set_linger(Some(Duration::from_secs(0)));
+                drop(c);
+            }
+            for _ in 0..3 {
+                if let Ok(s) = mk(port) {
+                    if let Ok(mut c) = s.connect(addr).await {
+                        if !tls {
+                            let _ = c.write_all(&request(&dict, "sameport-again", 6)).await;
+                        }
+                        tokio::time::sleep(hold).await;
+                        return;
+                    }
+                }
+                tokio::time::sleep(Duration::from_millis(5)).await;
+            }
+        }
         // abrupt reset right after connecting
         "reset" => { if let Ok(s) = raw().await { let _ = s.set_linger(Some(Duration::from_secs(0))); drop(s); } }
         k => {
@@ -717,7 +749,7 @@ pub fn scenario(st: &State, t: &mut Toks) -> PResult<String> {
         tokio::time::sleep(Duration::from_millis(seed % 20)).await;
         let hold = Duration::from_secs(30);
         let mut fh = Vec::new();
-        let slow_fault = faults.iter().any(|f| f == "vanish-before-answer" || f == "announce-leave");
+        let slow_fault = faults.iter().any(|f| f == "vanish-before-answer" || f == "announce-leave" || f == "reset-same-port");
         for f in faults {
             fh.push(tokio::spawn(faulty_peer(addr, tls, Arc::clone(&dict), f, hold)));
             tokio::time::sleep(Duration::from_millis((seed >> 8) % 10)).await;
@@ -739,6 +771,55 @@ pub fn scenario(st: &State, t: &mut Toks) -> PResult<String> {
         }
         for h in fh { h.abort(); }
         Ok::<String, String>(out)
+    });
+    rt.shutdown_timeout(Duration::from_millis(200));
+    out
+}
+
+/// NETAGED <tls>: a server that has been up for a while (5.3 s) with three connections that are open and idle (each has had one
+/// request answered); then a peer stalls in the middle of a frame, then a new client connects and is served; then the three idle
+/// connections send their next request.  Every one of them is answered: being idle is not a fault, however old the server is.
+pub fn aged(st: &State, t: &mut Toks) -> PResult<String> {
+    let dict = st.dicts.get("b").ok_or_else(|| "dict b missing".to_string())?.clone();
+    let tls = t.boolean()?;
+    let rt = rt();
+    let out = rt.block_on(async move {
+        let seen = Arc::new(Mutex::new(Vec::new()));
+        let addr = start_server(if tls { Some("match") } else { None }, Arc::clone(&dict), Arc::clone(&seen)).await?;
+        async fn ask(c: &mut Conn, dict: &Arc<Dictionary>, sid: &str, hop: u32) -> &'static str {
+            if c.write_all(&request(dict, sid, hop)).await.is_err() {
+                return "writefailed";
+            }
+            let want = expected_answer(dict, sid, hop);
+            let mut got = vec![0u8; want.len()];
+            match tokio::time::timeout(Duration::from_secs(3), c.read_exact(&mut got)).await {
+                Ok(Ok(_)) => if got == want { "ok" } else { "wronganswer" },
+                Ok(Err(_)) => "closed",
+                Err(_) => "noanswer",
+            }
+        }
+        let mut idle = Vec::new();
+        let mut o = String::from("NETAGED");
+        for i in 0..3u32 {
+            let mut c = Conn::open(addr, tls).await?;
+            let r = ask(&mut c, &dict, &format!("aged{}-first", i), 100 + i).await;
+            let _ = write!(o, " first{}={}", i, r);
+            idle.push(c);
+        }
+        tokio::time::sleep(Duration::from_millis(5300)).await;
+        let d2 = Arc::clone(&dict);
+        let stalled = tokio::spawn(faulty_peer(addr, tls, d2, "stall-midframe".into(), Duration::from_secs(30)));
+        tokio::time::sleep(Duration::from_millis(150)).await;
+        let mut fresh = Conn::open(addr, tls).await?;
+        let r = ask(&mut fresh, &dict, "aged-new", 200).await;
+        let _ = write!(o, " new={}", r);
+        tokio::time::sleep(Duration::from_millis(100)).await;
+        for (i, c) in idle.iter_mut().enumerate() {
+            let r = ask(c, &dict, &format!("aged{}-second", i), 300 + i as u32).await;
+            let _ = write!(o, " second{}={}", i, r);
+        }
+        stalled.abort();
+        Ok::<String, String>(o)
     });
     rt.shutdown_timeout(Duration::from_millis(200));
     out
